@@ -60,11 +60,12 @@ Proof. exact const_static_kept. Qed.
 Print Assumptions const_static_immutable.
 
 (* whole programs: a const global has its initial value in the final state of every run *)
-Theorem const_global_immutable_program : forall fuel p x e,
-  assoc x (init_globals (pglobals p)) = Some e -> econst e = true ->
-  assoc x (sglob (snd (exec_list (exec (pfuncs p) fuel) (pmain p) (init_state p)))) = Some e.
+Theorem const_global_immutable_program : forall fuel p s0 x e,
+  init_state p = Some s0 -> assoc x (sglob s0) = Some e -> econst e = true ->
+  assoc x (sglob (snd (exec_list (exec (pfuncs p) fuel) (pmain p) s0))) = Some e.
 Proof.
-  intros fuel p x e H Hc. eapply const_global_kept; [apply cpres_exec_list| |exact H|exact Hc]. discriminate.
+  intros fuel p s0 x e Hi H Hc. eapply const_global_kept; [apply cpres_exec_list| |exact H|exact Hc].
+  unfold init_state in Hi. destruct (init_globals (pglobals p) []); [|discriminate]. injection Hi as <-. discriminate.
 Qed.
 Print Assumptions const_global_immutable_program.
 
